@@ -1,13 +1,13 @@
 #!/bin/sh
 # tools/keep_mutant.sh <PROP> <n> <name>: verify agent output /tmp/mut/<PROP>.out/m<n>.* in worktree /tmp/mut/<PROP>
 # (baseline passes with diff, demo fails with diff, demo passes without) and store under /verif/seeded/<name>/
-PROP=$1; N=$2; NAME=$3; WT=/tmp/mut/$PROP; OUT=${OUTDIR:-/tmp/mut/$PROP.out}
+R=${MUTROOT:-/tmp/mut}; PROP=$1; N=$2; NAME=$3; WT=$R/$PROP; OUT=${OUTDIR:-$R/$PROP.out}
 cd $WT || exit 2
 git checkout -q -- . ; git apply $OUT/m$N.diff || { echo "APPLY-FAIL"; exit 1; }
-BL=1; for try in 1 2 3; do /tmp/mut/baseline.py $WT > /tmp/mut/bl.$$ 2>&1; BL=$?; [ $BL -eq 0 ] && break; done  # ptys tests flake under load
-PYTHONPATH=$WT/src timeout 120 /venv/bin/python $OUT/demo_m$N.py > /tmp/mut/d1.$$ 2>&1; D1=$?
+BL=1; for try in 1 2 3; do /tmp/mut/baseline.py $WT > $R/bl.$$ 2>&1; BL=$?; [ $BL -eq 0 ] && break; done  # ptys tests flake under load
+PYTHONPATH=$WT/src timeout 120 /venv/bin/python $OUT/demo_m$N.py > $R/d1.$$ 2>&1; D1=$?
 git checkout -q -- .
-PYTHONPATH=$WT/src timeout 120 /venv/bin/python $OUT/demo_m$N.py > /tmp/mut/d0.$$ 2>&1; D0=$?
+PYTHONPATH=$WT/src timeout 120 /venv/bin/python $OUT/demo_m$N.py > $R/d0.$$ 2>&1; D0=$?
 echo "baseline_with_diff=$BL demo_with_diff=$D1 demo_without=$D0"
 if [ $BL -eq 0 ] && [ $D1 -ne 0 ] && [ $D0 -eq 0 ]; then
   mkdir -p /verif/seeded/$NAME
@@ -18,11 +18,11 @@ import json
 m=json.load(open("$OUT/meta_m$N.json"))
 m["verified"]={"baseline_with_patch":"tools/baseline.py: stable_missing=0","demo_with_patch_exit":$D1,"demo_without_patch_exit":$D0,
  "how":"applied in a scratch worktree of /repo (HEAD incl. fix: commits); ran /tmp/mut/baseline.py and the demo with and without the patch"}
-m["demo_output_with_patch"]=open("/tmp/mut/d1.$$").read()[-600:]
+m["demo_output_with_patch"]=open("$R/d1.$$").read()[-600:]
 json.dump(m,open("/verif/seeded/$NAME/meta.json","w"),indent=1)
 PY
   echo "KEPT /verif/seeded/$NAME"
 else
-  echo "REJECTED"; tail -n 3 /tmp/mut/bl.$$; tail -n 3 /tmp/mut/d1.$$; tail -n 3 /tmp/mut/d0.$$
+  echo "REJECTED"; tail -n 3 $R/bl.$$; tail -n 3 $R/d1.$$; tail -n 3 $R/d0.$$
 fi
-rm -f /tmp/mut/*.$$
+rm -f $R/*.$$
